@@ -122,7 +122,7 @@ let process_runs (type sh ts l op ret) (c : (sh, ts, l, op, ret) comp) (s : scn)
            add_evs evs; go cfg' rest (pos + 1)
          | None -> Error pos)
     in
-    let fine = List.mem_assoc "fine" s.opts in
+    let fine = List.mem_assoc "fine" s.opts || List.mem_assoc "nomodel" s.opts in
     let cfg1 = { cfg1 with c_sh = c.with_choices cfg1.c_sh !choices } in
     let res = if fine then Ok cfg1 else go cfg1 !sline 0 in
     let model_h = if fine then !hline else Buffer.contents buf in
@@ -243,6 +243,7 @@ let parse_aop name args =
   match name with
   | "a" -> Add a | "i" -> Inc | "d" -> Dec | "s" -> Sum | "r" -> Reset
   | "q" -> SumAndReset | "w" -> Store a
+  | "h" -> Add a    (* only in nomodel scenarios: values outside the modelled range, never replayed *)
   | _ -> failwith ("unknown adder op " ^ name)
 let adder_final _ _ _ =
   [Sum; Store (zint 7); Sum; Add (zint 5); Sum; SumAndReset; Sum; Add (zint 3); Reset; Sum; Add (zint 11); Sum]
